@@ -454,7 +454,7 @@ func TestC16Wire(t *testing.T) {
 				w.Step()
 				before := w.Node(1).View()
 				c := w.NewClient("candidate", 1, AckAll)
-				rc := c.Connect(ConnectOpts{ClientID: "cand", KeepAlive: 600, User: p.User, Password: p.Pass, WillTopic: "will/t", WillMsg: "cand-will"})
+				rc := c.Connect(ConnectOpts{ClientID: "cand", KeepAlive: 600, User: p.User, UserPresent: true, Password: p.Pass, WillTopic: "will/t", WillMsg: "cand-will"})
 				w.Step()
 				Observe(w, rep)
 				if want && rc != 0 {
